@@ -228,6 +228,10 @@ class Ctx:
             e["JAVA_TOOL_OPTIONS"] = "-Xss512m -Xmx%s" % (heap or ("6g" if self.quick else "12g"))
         if env:
             e.update(env)
+        # TLC's own temporary directories go where the run's metadata goes (removed below), not into /tmp
+        os.makedirs(md, exist_ok=True)
+        if "-Djava.io.tmpdir" not in e["JAVA_TOOL_OPTIONS"]:
+            e["JAVA_TOOL_OPTIONS"] += " -Djava.io.tmpdir=%s" % md
         t = time.time()
         p = subprocess.run(cmd, cwd=self.specdir, env=e, stdout=subprocess.PIPE,
                            stderr=subprocess.STDOUT, text=True, errors="replace")
